@@ -8,7 +8,9 @@ EXTENDS Formats, TLCExt, Json, IOUtils
 Traces == JsonDeserialize(IOEnv.TRACE_FILE)
 VARIABLE i
 Init == i = 1 /\ TLCSet(1, 0)
-Want(t) == Serialise(t.fmt, Parse(t.fmt, t.text), 80)
+\* a FASTQ file may also be written to a FASTA target: name and sequence of every record, no qualities
+Want(t) == IF t.to = t.fmt THEN Serialise(t.fmt, Parse(t.fmt, t.text), 80)
+           ELSE LET rs == Parse(t.fmt, t.text) IN Serialise(t.to, [q \in DOMAIN rs |-> <<rs[q][1], rs[q][2]>>], 80)
 RECURSIVE FirstDiff(_, _, _)
 FirstDiff(a, b, k) == IF k > Len(a) \/ k > Len(b) THEN k ELSE IF a[k] # b[k] THEN k ELSE FirstDiff(a, b, k + 1)
 Next == /\ i <= Len(Traces)
